@@ -249,6 +249,10 @@ pub fn run(prop: &'static str, tier: Tier, seed: u64) -> i32 {
         eprintln!("[{}] engine {}: states={} transitions={} evaluations={} violations={} {}", prop, r.name, r.states, r.transitions, r.evaluations, r.violations.len(), r.capped.clone().unwrap_or_default());
     }
 
+    let hp = crate::panics::HARNESS_PANICS.load(std::sync::atomic::Ordering::Relaxed);
+    if hp > 0 {
+        machinery.push(format!("{} panic(s) inside the harness itself (see the HARNESS PANIC lines on stderr); nothing this run reports is a verdict", hp));
+    }
     // ---- confirm, classify, report
     let known = load_known();
     let mut new_violations = 0;
@@ -404,7 +408,7 @@ pub fn run(prop: &'static str, tier: Tier, seed: u64) -> i32 {
         for m in &machinery {
             eprintln!("MACHINERY-ERROR: {}", m);
         }
-        if new_violations == 0 {
+        if new_violations == 0 || hp > 0 {
             return 2;
         }
     }
